@@ -111,7 +111,8 @@ def _case(draw):
         case['path'] = path
         case['value'] = value
         case['break'] = brk
-        case['prefix'] = draw(st.integers(0, 3))
+        case['prefix'] = draw(st.integers(0, 5))
+        case['vtag'] = draw(st.sampled_from([None, None, None, '!force', '!new']))
     case['fnode'] = draw(st.sampled_from([None] * 9 + ['same-names', 'nested', 'new-name']))
     return case
 
@@ -171,6 +172,17 @@ def cmd_doc(path, value):
     for c in reversed(path):
         cur = {c: cur}
     return cur
+
+
+def _meets_list(plain, path):
+    cur = plain
+    for c in path:
+        if isinstance(cur, list):
+            return True
+        if not isinstance(cur, dict) or c not in cur:
+            return False
+        cur = cur[c]
+    return False
 
 
 def cmd_string(path, value):
@@ -305,10 +317,21 @@ def run_case(case):
         path, value = case['path'], case['value']
         arg = cmd_string(path, value)
         # the default tag typed out ('!notnew a.b=1') is the same override; '!new' in front is the documented way to allow a new path
-        prefix = [None, None, '!notnew', '!new'][case.get('prefix', 0)]
+        prefix = [None, None, '!notnew', '!new', '!force', '!force'][case.get('prefix', 0)]
+        # a tag of the value itself ('a.b=!force 5'): the path set is the same; only !new (allowed to create) says something about paths
+        vtag = case.get('vtag')
+        if vtag:
+            arg = cmd_string(path, vtag + ' ' + value)
+            labels.add('value-with-a-tag-of-its-own')
         if prefix:
             arg = prefix + ' ' + arg
             labels.add('tag-typed-in-front=' + prefix)
+            if vtag:
+                nontrivial = True
+                labels.add('tag-in-front-and-tagged-value')
+        # '!new' in front is the documented way to allow a new path; any other tag in front takes the place of the default '!notnew'
+        # (it is the tag of the value), so that nothing forbids creation then
+        creation_allowed = prefix in ('!new', '!force')
         labels.add('break=' + case['break'])
         if any(isinstance(c, int) for c in path):
             labels.add('index-component')
@@ -322,9 +345,21 @@ def run_case(case):
         from awesomeyaml import Config
         status, got = O.try_call(lambda: Config.build_from_cmdline(''.join(texts), arg))     # one multi-document raw yaml source
         src = f'\nsources:\n' + '\n'.join(texts) + f'\ncommand line: {arg!r}'
-        if missing and prefix == '!new':
-            # creation is allowed: what is created is outside the statement (an index beyond a list is still an error), nothing to compare
-            labels.add('new-typed-in-front-of-a-missing-path')
+        if vtag == '!new' and not creation_allowed and missing:
+            # the value may be new, the path to it may not: an error iff a component before the last one is missing (not stated for
+            # the rest) - covered by the document mode; here only the frame is looked at
+            labels.add('new-value-on-a-missing-path')
+        elif missing and creation_allowed:
+            # creation is allowed: an index beyond a list is still an error; through mappings only, the result is the base plus the path
+            labels.add('creation-allowed-for-a-missing-path')
+            if not any(isinstance(c, int) for c in path) and not _meets_list(sofar, path):
+                nontrivial = True
+                if status != 'ok':
+                    raise Violation(f'C08: {arg!r} is allowed to create its path (through mappings only), yet the build failed: {type(got).__name__}: {got}{src}')
+                expected = upd(sofar, ovp)
+                gotb = O.to_builtin(got)
+                if O.canon(gotb) != O.canon(expected):
+                    raise Violation(f'C08: override {arg!r}: result {gotb!r} != base plus exactly that path {expected!r}{src}')
         elif missing:
             labels.add('expect-error')
             if status == 'ok':
